@@ -4,10 +4,12 @@ package prometheus
 // tunnel open; no double counting of overlaps, nothing lost or repeated across scrapes.
 
 import (
+	"errors"
 	"net"
 	"net/netip"
 	"time"
 
+	"github.com/Jigsaw-Code/outline-ss-server/ipinfo"
 	"github.com/Jigsaw-Code/outline-ss-server/service/metrics"
 )
 
@@ -81,6 +83,57 @@ func verifC17History(steps int) {
 }
 
 func VH_C17_history() { verifC17History(4) }
+
+// a location database that fails for some lookups (each lookup fails or not, arbitrarily)
+type verifFlakyDB struct{ lookups int }
+
+func (d *verifFlakyDB) GetIPInfo(ip net.IP) (ipinfo.IPInfo, error) {
+	d.lookups++
+	if verifFlag("lookup-fails") {
+		return ipinfo.IPInfo{}, errVerifDB
+	}
+	return ipinfo.IPInfo{CountryCode: "AA", ASN: ipinfo.ASN{Number: 64500, Organization: "Org"}}, nil
+}
+
+var errVerifDB = errors.New("db failure")
+
+// tunnel time does not depend on the location database working: histories over one client with
+// a database that fails arbitrarily
+func VH_C17_history_flaky_db() {
+	verifInstallClock(1 << 41)
+	db := &verifFlakyDB{}
+	c := newTunnelTimeMetrics(db)
+	k := IPKey{netip.AddrFrom4([4]byte{203, 0, 113, 5}), "k1"}
+	open, due := 0, int64(0)
+	for i := 0; i < 4; i++ {
+		dt := verifAdvance()
+		if open > 0 {
+			due += dt
+		}
+		switch verifChoice("op", 3) {
+		case 0:
+			c.startConnection(k)
+			open++
+		case 1:
+			c.stopConnection(k)
+			if open > 0 {
+				open--
+			}
+		default:
+			c.Collect(make(chan prometheus_Metric, 16))
+			verifAssert("C17.flaky-db.scrape", verifEqNanos(verifCounterValue(c.tunnelTimePerKey, "ns", "k1"), due))
+		}
+		_, present := c.activeClients[k]
+		verifAssert("C17.flaky-db.entry-iff-open", present == (open > 0))
+	}
+	dt := verifAdvance()
+	if open > 0 {
+		due += dt
+	}
+	c.Collect(make(chan prometheus_Metric, 16))
+	verifAssert("C17.flaky-db.final", verifEqNanos(verifCounterValue(c.tunnelTimePerKey, "ns", "k1"), due))
+	verifReach("C17.flaky-db.failed-lookup-with-time", db.lookups > 0 && due > 0)
+}
 
 func VH_C17_history_T() { verifC17History(6) }
 
